@@ -633,10 +633,32 @@ func (fc *FuncCtx) execSelect(st *State, x *ast.SelectStmt, label string) *State
 	choice := fc.fresh("select", tInt)
 	var outs []*State
 	n := len(x.Body.List)
+	// `select { case ch <- v: ... default: ... }` on a package-level channel: the send happens exactly when the
+	// channel has room; the ghost full_<channel> says which (contracts can speak about "the queue was not full")
+	fullName := ""
+	if n == 2 {
+		c0, c1 := x.Body.List[0].(*ast.CommClause), x.Body.List[1].(*ast.CommClause)
+		if c0.Comm == nil {
+			c0, c1 = c1, c0
+		}
+		if ss, ok := c0.Comm.(*ast.SendStmt); ok && c1.Comm == nil {
+			if key := fc.globalKey(ss.Chan); key != "" {
+				fullName = "full_" + key[strings.LastIndex(key, ".")+1:]
+				full := fc.freshBool(fullName)
+				st.ghost[fullName] = mkBool(full)
+			}
+		}
+	}
 	for i, c := range x.Body.List {
 		cc := c.(*ast.CommClause)
 		b := st.clone()
-		if i == n-1 {
+		if fullName != "" {
+			if cc.Comm == nil {
+				b.guard = and(st.guard, st.ghost[fullName].S)
+			} else {
+				b.guard = and(st.guard, not(st.ghost[fullName].S))
+			}
+		} else if i == n-1 {
 			b.guard = and(st.guard, "(>= "+choice.S+" "+strconv.Itoa(i)+")")
 		} else if i == 0 {
 			b.guard = and(st.guard, "(<= "+choice.S+" 0)")
